@@ -98,4 +98,13 @@ r('rf-private-rename',
   ('src/mania/convert/mod.rs', "    map.hit_objects = new_objects;\n    map.hit_sounds.clear();\n    map.hit_objects.sort_by(cmp_by_start_time);", "    map.hit_objects = new_objects;\n    map.hit_sounds.clear();\n    map.hit_objects.sort_by(by_time);"),
   props=['C19', 'C01'])
 
+# control point insertion moved into a correct generic helper with a key function
+r('rf-ctl-helper',
+  ('src/model/beatmap/decode.rs',
+   "    fn add(self, state: &mut BeatmapState) {\n        match state\n            .timing_points\n            .binary_search_by(|probe| probe.time.total_cmp(&self.time))\n        {\n            Err(i) => state.timing_points.insert(i, self),\n            Ok(i) => state.timing_points[i] = self,\n        }\n    }",
+   "    fn add(self, state: &mut BeatmapState) {\n        insert_by_time(&mut state.timing_points, self, |point| point.time);\n    }"),
+  ('src/model/beatmap/decode.rs', "// osu!taiko conversion mutates the list of effect points",
+   "fn insert_by_time<P>(points: &mut Vec<P>, point: P, time: fn(&P) -> f64) {\n    let point_time = time(&point);\n\n    match points.binary_search_by(|probe| time(probe).total_cmp(&point_time)) {\n        Err(i) => points.insert(i, point),\n        Ok(i) => points[i] = point,\n    }\n}\n\n// osu!taiko conversion mutates the list of effect points"),
+  props=['C06', 'C19'])
+
 REFACTORS = R
